@@ -45,7 +45,7 @@ LEVEL = 'proof'
 TRUSTED = ['tools/cxx2c.py lowering', 'the operand table in props/c17/lx_harness.c, written from the DWARF 4 standard and the GNU extension descriptions']
 ASSUMPTIONS = [
     'constant, value_cst, the producers, value_die, pass_block, locexpr_producer and the dwarf_getlocation_* calls are modelled (props/c17/lx_model.h): only WHICH operand kind, WHICH stored word, signedness and radix domain are checked',
-    'DWARF 5 opcodes 0xa0..0xa9 are left unconstrained',
+    'DWARF 5 opcodes 0xa0..0xa9, opcodes DWARF 4 does not assign and vendor opcodes other than the GNU ones listed are left unconstrained',
     'SLICE of C17: location-list iteration (address ranges, elem/relem/length), offsets and opcodes of operations, ?OP_x, and all of the abbreviation words are NOT covered',
 ]
 EXPLANATION = 'Operand decoding of location-expression operations only; see DESIGN.md section 4 C17.'
